@@ -62,7 +62,7 @@ let () =
                 if !shown_sf < 100000 then begin incr shown_sf; Printf.fprintf oc "SPECFAIL\t%s\tspec=%s\n" line e end
               end
             | None -> ());
-           if r <> obs then begin
+           if r <> obs && r <> "unmodelled" then begin
              incr bad;
              if !shown < 100000 then begin
                incr shown;
